@@ -12,7 +12,7 @@ git checkout -q -- .
 if ! git apply "$D/patch.diff"; then echo "RESULT patch-does-not-apply"; exit 9; fi
 echo "== build with patch"; make -j8 > $L/build1.log 2>&1; echo "build rc=$?"
 echo "== existing tests with patch"
-for d in src lib test-suite; do (cd $d && make -k -j8 check > $L/check-$d.log 2>&1); done
+for d in src lib test-suite; do (cd $d && make -k -j8 check 'TESTS=$(check_PROGRAMS)' > $L/check-$d.log 2>&1); done
 PASS=$(cat $L/check-*.log | grep -cE "^PASS:"); FAIL=$(cat $L/check-*.log | grep -cE "^(FAIL|ERROR):")
 echo "tests with patch: PASS=$PASS FAIL/ERROR=$FAIL"; cat $L/check-*.log | grep -E "^(FAIL|ERROR):" | head
 echo "== demo with patch (must fail)"
